@@ -76,6 +76,7 @@ static void h_btimer(void *cookie)
 	int slot = (int)(b - BT);
 
 	SEQ++;
+	note_progress(th);
 	bt_fired++;
 	PROBE[PR_TIMER_FIRED]++;
 	if (th == NULL || (int)(th - RT) != b->owner)
